@@ -495,6 +495,9 @@ func TestVerifReplayDB(t *testing.T) {
 		return o
 	}
 	runs := 4000
+	if os.Getenv("VERIF_REPLAY_DEEP") != "" {
+		runs = 40000 // thorough tier: ten times as many histories (still a bounded search, never counted as proof)
+	}
 	for r := 0; r < runs; r++ {
 		h := newHarness(t)
 		n := 2 + rng.Intn(7)
